@@ -517,6 +517,9 @@ class Checker:
             elif op == "add_listener":
                 pass
         else:
+            if op == "activate" and ev.get("awaitable") is False:
+                self.rej("C11.reactivation-noop", "activate_initial_state() of a machine with coroutine callbacks, called inside a running loop, "
+                                                  "returned something that cannot be awaited")
             if op in ("construct", "activate"):
                 quiet = self.quiet_step
                 self.quiet_step = None
